@@ -72,8 +72,8 @@ def memmem_scan_rule(rep, mod, rule='R-MEMMEM-SCAN'):
         ri_ = f.inst_of(r_.ops[0]) if r_.ops else None
         cands = []
         if ri_ is not None and ri_.op == 'phi':
-            cands = [v for (bb, v) in ri_.incoming if f.bmap[bb] in L['blocks'] and v.k != 'null']
-        elif r_.block in L['blocks'] and r_.ops:
+            cands = [v for (bb, v) in ri_.incoming if v.k != 'null']
+        elif r_.ops:
             cands = [r_.ops[0]]
         for v in cands:
             P = lin_of(f, v)
@@ -132,14 +132,28 @@ def memmem_scan_rule(rep, mod, rule='R-MEMMEM-SCAN'):
     # result = cursor at the first memcmp == 0
     rets = f.returns()
     got = None
+    def leaving(b, tgt):
+        """(loop block, its successor) through which block b - possibly a block behind the loop that only forms the
+        result, e.g. `return (char *)cl + pos;` - is reached"""
+        for _ in range(4):
+            if b in L['blocks']:
+                return b, tgt
+            if len(b.preds) != 1:
+                return None
+            b, tgt = b.preds[0], b
+        return None
     for r in rets:
         ri = f.inst_of(r.ops[0]) if r.ops else None
         if ri is not None and ri.op == 'phi':
             for (bb, v) in ri.incoming:
-                if f.bmap[bb] in L['blocks'] and v.k != 'null':
-                    got = (v, f.bmap[bb], r.block)
-        elif r.block in L['blocks']:
-            got = (r.ops[0], r.block, None)
+                if v.k != 'null' and lin_of(f, v)[0].get(('i', cur.id)) == 1:
+                    lv = leaving(f.bmap[bb], r.block)
+                    if lv is not None:
+                        got = (v, lv[0], lv[1])
+        elif r.ops and lin_of(f, r.ops[0])[0].get(('i', cur.id)) == 1:
+            lv = leaving(r.block, None)
+            if lv is not None:
+                got = (r.ops[0], lv[0], lv[1])
     ok = False
     detail = 'no return of the cursor inside the scanning loop'
     if got is not None:
